@@ -20,7 +20,7 @@ def pipeline(rep, pid, tier, cfgname):
     if mc.violated or mc.rc != 0:
         raise vlib.ToolError("model theorem violated in MC_C14: %s\n%s" % (mc.violated, "\n".join(mc.lines[-30:])))
     rep.add_tlc(mc, "mc")
-    n = 40000 if tier == "thorough" else 1500
+    n = 20000 if tier == "thorough" else 1500
     tpath = vlib.record_trace(pid, ["record", "c14", "--n", str(n)])
     recs = vlib.read_ndjson(tpath)
     nrec, bad = vlib.validate_trace(rep, pid, "Trace_C14", tpath, cfg=cfgname, stack="1g", heap="12g")
